@@ -76,7 +76,7 @@ def tlc(
     depth: int | None = None,
     seed: int | None = None,
     tag: str = "",
-    xmx: str = "8g",
+    xmx: str = "5g",
     extra: list[str] | None = None,
     deque: bool = False,
 ) -> TLCResult:
